@@ -141,3 +141,52 @@ def atomic_facts(guards):
     for t, lab in guards:
         add(t, lab.startswith("T"))
     return out
+
+
+def name_free(fi, node: ast.AST, depth: int = 2, width: int = 90) -> str:
+    """source text of `node` in which every local variable of `fi` is replaced by the expression of its only assignment
+    (up to `depth` levels) or by `_` — used for instance strings, which are part of obligation keys and must not depend on
+    the spelling of locals.  Parameters, attributes, module-level names and builtins are kept."""
+    import builtins as _b
+    import copy
+    top = fi
+    while getattr(top, "parent", None) is not None:
+        top = top.parent
+    a = top.node.args
+    keep = {x.arg for x in a.posonlyargs + a.args + a.kwonlyargs} | {"self", "cls"}
+    if a.vararg:
+        keep.add(a.vararg.arg)
+    if a.kwarg:
+        keep.add(a.kwarg.arg)
+    mod = fi.module
+    keep |= set(mod.imports) | set(mod.classes) | set(mod.functions) | set(mod.assigns) | set(dir(_b))
+    defs: dict = {}
+    for n in ast.walk(top.node):
+        if isinstance(n, ast.Assign):
+            for t in n.targets:
+                if isinstance(t, ast.Name):
+                    defs.setdefault(t.id, []).append(n.value)
+        elif isinstance(n, ast.Name) and isinstance(n.ctx, (ast.Store, ast.Del)):
+            defs.setdefault(n.id, [])
+    for k in list(defs):
+        stores = sum(1 for n in ast.walk(top.node) if isinstance(n, ast.Name) and n.id == k and isinstance(n.ctx, (ast.Store, ast.Del)))
+        if stores != 1 or len(defs[k]) != 1:
+            defs[k] = []
+
+    class R(ast.NodeTransformer):
+        def __init__(self, d):
+            self.d = d
+
+        def visit_Name(self, n):
+            if n.id in keep and n.id not in defs:
+                return n
+            vs = defs.get(n.id)
+            if vs and self.d > 0:
+                return R(self.d - 1).visit(copy.deepcopy(vs[0]))
+            return ast.Name(id="_", ctx=ast.Load())
+
+        def visit_arg(self, n):
+            return ast.arg(arg="_", annotation=None)
+    out = R(depth).visit(copy.deepcopy(node))
+    s = " ".join(ast.unparse(ast.fix_missing_locations(out)).split())
+    return s if len(s) <= width else s[: width - 3] + "..."
